@@ -10,14 +10,6 @@ open PyIkev2
 
 variable {α β : Type}
 
-/-- the continuation of a state read may assume whatever the invariant says about the object read -/
-theorem Keeps.bind_getMe {I : HSt → Prop} {f : XSa → HM β} (P : XSa → Prop) (hP : ∀ s, I s → P s.me)
-    (hf : ∀ x, P x → Keeps I (f x)) : Keeps I (getMe >>= f) := by
-  constructor
-  intro s h
-  rw [HM.bind_def]
-  exact (hf s.me (hP s h)).keep s h
-
 /-- what the property asks of a CHILD_SA record the responder creates for `request` under the connection `conf`:
     its mode is the mode of a policy entry, which is the mode the request asked for; its selectors lie inside that entry and
     inside what the request offered; its suite is drawn from the entry's proposal and from one of the offered proposals -/
